@@ -1,4 +1,5 @@
 import Mouette.Lemmas.BoxSource
+import Mouette.Generated.C12Vec
 /-!
 # C11 (round 4) - the box operations the k-d tree relies on, as the SOURCE of `aabb.py` defines them now
 
@@ -36,6 +37,23 @@ theorem kd_box_distance_le (b : Box) (q p : List Rat) (hq : q.length = b.dim) (h
     ∃ d, C12Box.distance b q "l2" = some d ∧ d ≤ fin (sqDistR p q) := by
   rw [kd_box_distance, if_pos hq]
   exact ⟨_, rfl, Box.dist2_le_of_inside _ _ _ _ hin⟩
+
+/-- `distance(self.points[idx], pt)` (geometry.py, default `which="l2"`) is the square root of `sqDistR`, the squared distance
+the k-d tree definitions compare (`sqDist`): the bodies of `distance` and `norm` as extracted into `Generated/C12Vec.lean` -/
+theorem kd_point_distance (A B : List Rat) : C12Vec.distanceG A B "l2" = some (Mouette.VecS.NVal.sqrt (sqDistR A B)) := by
+  have key : ∀ (A B : List Rat), Mouette.VecS.vdot (Mouette.VecS.vsub B A) (Mouette.VecS.vsub B A) = sqDistR A B := by
+    intro A
+    induction A with
+    | nil => intro B; cases B <;> simp [Mouette.VecS.vdot, Mouette.VecS.vsub, sqDistR]
+    | cons a as ih =>
+      intro B
+      cases B with
+      | nil => simp [Mouette.VecS.vdot, Mouette.VecS.vsub, sqDistR]
+      | cons b bs =>
+        have := ih bs
+        simp only [Mouette.VecS.vdot, Mouette.VecS.vsub, List.zipWith_cons_cons, List.foldr_cons, sqDistR] at this ⊢
+        rw [this]; ring
+  simp +decide [C12Vec.distanceG, C12Vec.normG, key]
 
 example : C12Box.distance ⟨[fin 0, ninf], [fin 1, pinf]⟩ [3, 7] "l2" = some (fin 4) := by decide +kernel
 
